@@ -305,6 +305,7 @@ func cmdCheck(args []string) int {
 		"counters":            merged.Counters,
 		"signature_sample":    sigSample,
 		"cross_observations":  merged.Cross,
+		"cross_samples":       merged.CrossSamples,
 		"inconclusive":        merged.Inconclusive,
 		"known_findings_hit":  knownHits,
 		"notes":               merged.Notes,
